@@ -98,6 +98,18 @@ def r15f(rep, prog):
     return n
 
 
+def r02h_bfs(rep):
+    """hop distances of the bounded BFS are set once, at discovery (R02h restricted to is_bfs_reachable)"""
+    from . import search
+    rep.rule('R02h', 'bounded BFS: a hop distance is stored exactly once, when the vertex is discovered and marked', floor=1)
+    for prog in env.extract([env.witness_tu()], 'full').values():
+        sub = type(rep)(rep.prop, rep.tier)
+        search.check_relaxation(sub, prog)
+        for i in sub.instances.values():
+            if 'is_bfs_reachable' in i.function:
+                rep.add(i.rule, i.site, i.function, i.what, i.status, i.detail, key=i.key)
+
+
 def run(rep, tier):
     c05.run_rules(rep, tier, list(RULES), RULES)
     rep.rule('R15f', 'bounded BFS answers true only within the hop bound', floor=1)
@@ -106,5 +118,6 @@ def run(rep, tier):
         n += r15f(rep, prog)
     if n == 0:
         rep.analysis_broken('parmcb::is_bfs_reachable is not instantiated (anchor vanished)')
+    r02h_bfs(rep)
     rep.assume('BFS pops vertices in order of hop distance (queue discipline of std::queue); given that, R15f makes '
                'is_bfs_reachable(g, s, t, h) true only if dist(s, t) <= h; completeness of the search is not decided')
